@@ -306,12 +306,10 @@ class C03Bounded(Bounded):
                         if want != ERR:
                             nontriv += 1
                         if got != want:
-                            kind = chain[-1] if want != ERR or got != ERR else "x"
-                            seen[kind] = seen.get(kind, 0) + 1
                             big = isinstance(raw, int) and not isinstance(raw, bool) and abs(raw) > 2 ** 53
-                            if big:          # recorded finding D38 (an integer beyond 2**53 is stored as the nearest float); one listed input
-                                kind = "D38"
-                                seen[kind] = seen.get(kind, 0) + 1
+                            # (recorded finding D38 - an integer beyond 2**53 is stored as the nearest float - is a kind of its own: one listed input)
+                            kind = "D38" if big else (chain[-1] if want != ERR or got != ERR else "x")
+                            seen[kind] = seen.get(kind, 0) + 1
                             if seen[kind] == 1:
                                 fails.append({"text": ("KNOWN-D38 " if big else "") + f"{key!r}: {raw!r} -> {got}; the specification gives {want}", "input": [key, raw]})
                         elif len(samples) < 4 and want != ERR and n == 2 and "windash" in chain:
